@@ -260,9 +260,9 @@ class Installed:
             setattr(sys.modules[name.rpartition('.')[0]], name.rpartition('.')[2], mod)
         self.saved = []
 
-    def optimizer(self):
+    def optimizer(self, hyperparams=None):
         name = self.codes[-1][0]
-        return getattr(sys.modules[name], self.cls)()
+        return getattr(sys.modules[name], self.cls)(hyperparams=dict(hyperparams or {}))
 
 
 def dead_regs_ok(ir, plan):
@@ -327,7 +327,9 @@ def run_case(inst, cfg):
     nv, na, T = cfg['n_variables'], cfg['n_agents'], cfg['n_iterations']
     lo, hi = cfg['box']
     np.random.seed(cfg['seed'])
-    lb, ub = [lo] * nv, [hi] * nv
+    # per-variable bounds differ: the second variable lives in the middle half of the first one's interval
+    lb = [lo + 0.25 * (hi - lo) * (j % 2) for j in range(nv)]
+    ub = [hi - 0.25 * (hi - lo) * (j % 2) for j in range(nv)]
     if cfg['space'] == 'tree':
         from opytimizer.spaces.tree import TreeSpace
         space = TreeSpace(n_trees=na, n_terminals=2, n_variables=nv, n_iterations=T, min_depth=1, max_depth=3,
@@ -336,7 +338,7 @@ def run_case(inst, cfg):
         space = HyperSpace(n_agents=na, n_variables=nv, n_dimensions=2, n_iterations=T, lower_bound=lb, upper_bound=ub)
     else:
         space = SearchSpace(n_agents=na, n_variables=nv, n_iterations=T, lower_bound=lb, upper_bound=ub)
-    opt = inst.optimizer()
+    opt = inst.optimizer(cfg.get('hyperparams'))
     raw = OBJECTIVES[cfg['objective']](np.asarray(lb).reshape(-1, 1), np.asarray(ub).reshape(-1, 1))
     calls, dumps, st = [], [], {}
 
@@ -352,8 +354,8 @@ def run_case(inst, cfg):
 
     def run(sp, function, store_best_only=False, pre_evaluation_hook=None):
         # the box of the SPECIFICATION: the declared bounds (search space), the unit box (hypercomplex space) -- not read from the agents
-        st['lbs'] = [hlib.key(0.0 if cfg['space'] == 'hyper' else lo)] * nv
-        st['ubs'] = [hlib.key(1.0 if cfg['space'] == 'hyper' else hi)] * nv
+        st['lbs'] = [hlib.key(0.0 if cfg['space'] == 'hyper' else v) for v in lb]
+        st['ubs'] = [hlib.key(1.0 if cfg['space'] == 'hyper' else v) for v in ub]
         st['x0'] = snapshot(sp.agents, sp.best_agent, None, sp)
         st['shape'] = list(np.asarray(sp.agents[0].position).shape)
         REC.reset(len(sp.agents), sp)
@@ -396,7 +398,7 @@ def run_case(inst, cfg):
         if k in ftab and ftab[k][1] != v:
             return None, 'objective not deterministic'
         ftab[k] = (c, v)
-    case = {'optimizer': inst.cls, 'N': na, 'T': T, 'space': cfg['space'], 'objective': cfg['objective'], 'seed': cfg['seed'], 'box': cfg['box'],
+    case = {'optimizer': inst.cls, 'N': na, 'T': T, 'space': cfg['space'], 'hyperparams': cfg.get('hyperparams') or {}, 'objective': cfg['objective'], 'seed': cfg['seed'], 'box': [lb, ub],
             'n_variables': nv, 'shape': st['shape'], 'lbs': st['lbs'], 'ubs': st['ubs'], 'x0': st['x0'], 'oracle': REC.o, 'osrc': REC.src,
             'ftable': [list(x) for x in ftab.values()],
             'expected': {'args': [c for c, _ in calls], 'vals': [v for _, v in calls], 'dumps': dumps, 'final': final},
@@ -409,6 +411,9 @@ def run_case(inst, cfg):
 QUICK_CONFIGS = [  # (n_agents, n_variables, n_iterations, space, objective)
     (1, 1, 1, 'search', 'sphere'), (2, 1, 2, 'search', 'negative'), (3, 2, 2, 'search', 'sphere'), (4, 2, 3, 'search', 'shifted'),
     (2, 2, 1, 'hyper', 'sphere'), (3, 1, 3, 'hyper', 'negative'), (4, 1, 2, 'hyper', 'shifted'), (3, 2, 3, 'search', 'negative')]
+
+
+VARIANTS = {'ABC': {'n_trials': 1}}      # the scout phase needs more than n_trials (default 10) failed trials of one source
 
 
 def configs(cls, rng, min_agents):
@@ -424,7 +429,9 @@ def configs(cls, rng, min_agents):
         if cls == 'GP':      # tree space; with the default probabilities the three genetic steps select something only from 8-10 trees on
             na, space = (1, 4, 8, 10, 12, 10, 12, 16)[k % 8], 'tree'
         out.append({'n_agents': max(na, min_agents), 'n_variables': nv, 'n_iterations': T, 'space': space, 'objective': obj,
-                    'box': list(BOXES[k % len(BOXES)] if k >= 3 else BOXES[0])})
+                    'box': list(BOXES[k % len(BOXES)] if k >= 3 else BOXES[0]),
+                    # default hyperparameters, except where a branch of the program is unreachable with them in <= 3 iterations
+                    'hyperparams': VARIANTS.get(cls, {}) if k % 4 == 3 else {}})
     return out
 
 
